@@ -36,6 +36,13 @@ class C14(Check):
                 for l in lasts:
                     for trail in ([], [0x00], [0xff, 0x01]):
                         cs.append(Case("varint_dec " + hx([f] * k + [l] + trail), "boundary"))
+        # long runs of continuation bytes (12..48 bytes): groups far beyond the tenth must still be accounted for
+        for k in list(range(12, 49)):
+            for f in (0x80, 0xff, 0x81):
+                for l in (0x00, 0x01, 0x7f):
+                    cs.append(Case("varint_dec " + hx([f] * k + [l]), "long-run"))
+            cs.append(Case("varint_dec " + hx([0x81] + [0x80] * (k - 1) + [0x01]), "long-run"))
+            cs.append(Case("varint_dec " + hx([0x80] * 9 + [0x81] + [0x80] * (k - 10) + [0x01]), "long-run"))
         # a zero at each position of an otherwise valid long varint
         base = [0xff] * 9 + [0x01]
         for i in range(10):
@@ -50,7 +57,7 @@ class C14(Check):
             cs.append(Case("varint_dec " + hx(t), "len3-alphabet"))
         nrand = 20000 if tier == "quick" else 400000
         for _ in range(nrand):
-            n = rng.randint(3, 12)
+            n = rng.choice([3, 4, 5, 6, 7, 8, 9, 10, 11, 12, 12, 19, 20, 21, 30])
             # mostly continuation bytes so that long varints are actually reached
             b = [rng.choice([rng.randint(0x80, 0xff), rng.randint(0, 255), 0x80, 0xff]) for _ in range(n - 1)]
             b.append(rng.choice([rng.randint(0, 0x7f), 0, 1, 2, rng.randint(0, 255)]))
